@@ -56,9 +56,10 @@ func TestPolicy(t *testing.T) {
 			var kinds []string
 			integrityEdit := ""
 			overflowEdit, overflowK := "", 0
+			twoSignatures := false
 			nvar := c.Int("nvariations", 0, 3)
 			for i := 0; i < nvar; i++ {
-				kind := c.PickStr("variation", "validity", "lifetime", "integrity", "number-overflow", "method", "req-header", "resp-header", "content-type", "cache-control", "expires-header", "status")
+				kind := c.PickStr("variation", "validity", "lifetime", "integrity", "number-overflow", "two-signatures", "method", "req-header", "resp-header", "content-type", "cache-control", "expires-header", "status")
 				kinds = append(kinds, kind)
 				switch kind {
 				case "validity":
@@ -91,6 +92,10 @@ func TestPolicy(t *testing.T) {
 				case "integrity":
 					integrityEdit = c.PickStr("integrity", "mi-draft2", "digest/mi-sha256-03", "digest/mi-sha256", "mi-sha256-03")
 					p.Integrity = integrityEdit
+				case "two-signatures":
+					// the Signature header lists the same valid signature twice: each is subject
+					// to every condition, the verdict does not change
+					twoSignatures = true
 				case "number-overflow":
 					// the (unsigned) Signature header states date or expires plus k*2^64: not a
 					// representable structured-header integer, so the header is invalid
@@ -210,6 +215,15 @@ func TestPolicy(t *testing.T) {
 					l.File = buf.Bytes()
 				}
 			}
+			if twoSignatures {
+				h := pub.SignatureHeaderValue
+				pub.SignatureHeaderValue = h + c.PickStr("twoSig.sep", ", ", ",", " , ") + strings.Replace(h, "label", "label2", 1)
+				var buf bytes.Buffer
+				if pub.Write(&buf) == nil {
+					l.File = buf.Bytes()
+				}
+				c.Probe("Signature header with two valid signatures")
+			}
 			net := newCertNet(c)
 			rd, rerr, pi, _ := readFile(c, l.File, c.DrawReaderPlan("cdn", len(l.File), false))
 			if pi != nil {
@@ -255,7 +269,7 @@ func TestPolicy(t *testing.T) {
 			// history on ONE object: the publisher edits the exchange it has just verified -
 			// one response header renamed, the number of headers unchanged - signs it again
 			// and verifies again; the verdict must be the new policy's, not a remembered one
-			if c.Bool("editAndReverify") && integrityEdit == "" && overflowEdit == "" {
+			if c.Bool("editAndReverify") && integrityEdit == "" && overflowEdit == "" && !twoSignatures {
 				var names []string
 				for _, k := range core.SortedKeys(map[string][]string(pub.ResponseHeaders)) {
 					lk := strings.ToLower(k)
